@@ -655,6 +655,25 @@ def main():
             if c1 != c2 and not sw.timed_out and not sw.stopped_early:
                 gate_ok = False
                 log("nondeterminism: %s crash sets differ %s vs %s" % (sw.flavour, c1[:5], c2[:5]))
+    # ---- replay gate: a strategy replaced by its recorded decision list must give the same interleaving --------
+    replay_checked = 0
+    for sw in sweeps:
+        if sw.prefix or sw.cold or sw.flavour.startswith("asan"):
+            continue
+        picked = [i for i, r in sorted(sw.results.items()) if r.get("nontrivial") and r.get("ok")][:10]
+        for i in picked:
+            g = subprocess.run(sw.cmd(0)[:1] + ["--gen", "--index", str(i)] + sw.cmd(0)[2:], stdout=subprocess.PIPE, text=True)
+            plan = json.loads(g.stdout)
+            r1 = run_replay(sw.binary, plan, record=True)
+            if not r1.get("result") or "explicit_plan" not in r1["result"] or r1["result"].get("recorded_truncated"):
+                continue
+            r2 = run_replay(sw.binary, r1["result"]["explicit_plan"])
+            replay_checked += 1
+            if not r2.get("result") or r2["result"]["sched"] != r1["result"]["sched"] or r1["result"]["sched"] != sw.results[i]["sched"] or r2["result"]["ok"] != r1["result"]["ok"]:
+                gate_ok = False
+                log("replay gate: %s index %d: the explicit decision list does not reproduce the seeded interleaving" % (sw.flavour, i))
+    if gate_ok:
+        log("replay gate: %d seeded interleavings re-executed from their recorded decision lists: identical" % replay_checked)
     if gate_ok:
         log("determinism gate: %d (index, hash) pairs re-executed in fresh processes at worker counts 5 and 1: identical" % gate_checked)
     else:
@@ -754,7 +773,7 @@ def main():
         log("NOTE: runs of this sweep also showed findings that belong to %s (%s); they are reported by that property's check" % (p_, ", ".join(sorted(clss))))
 
     # ---- evidence -----------------------------------------------------------------------------------
-    write_evidence(prop, tier, seed, sweeps, infos, gate_checked, violations, known_hits, total_viol_runs, time.time() - t_start, T, lim, gate_ok)
+    write_evidence(prop, tier, seed, sweeps, infos, gate_checked, violations, known_hits, total_viol_runs, time.time() - t_start, T, lim, gate_ok, replay_checked)
     if violations:
         sys.exit(1)
     if unreproducible or not gate_ok:
@@ -765,7 +784,7 @@ def main():
     sys.exit(0)
 
 
-def write_evidence(prop, tier, seed, sweeps, infos, gate_checked, violations, known_hits, viol_runs, wall, T, lim, gate_ok=True):
+def write_evidence(prop, tier, seed, sweeps, infos, gate_checked, violations, known_hits, viol_runs, wall, T, lim, gate_ok=True, replay_checked=0):
     os.makedirs(EVID, exist_ok=True)
     evals = 0
     distinct = set()
@@ -832,7 +851,7 @@ def write_evidence(prop, tier, seed, sweeps, infos, gate_checked, violations, kn
             "max_team_histogram": {str(k): v for k, v in sorted(team_hist.items())},
             "reach_probes": dict(sorted(probes.items())),
             "reach_probes_stuck_at_zero": stuck,
-            "determinism_gate": {"pairs_reexecuted": gate_checked, "result": "identical" if gate_ok else "FAILED"},
+            "determinism_gate": {"pairs_reexecuted": gate_checked, "result": "identical" if gate_ok else "FAILED", "explicit_schedule_replays": replay_checked},
             "per_flavour": per_flavour,
             "components": {
                 "real_code": ["every translation unit of /repo/src (" + ", ".join(infos[sweeps[0].flavour]["repo_units"]) + ") and all headers, compiled from the working tree; header-inline code through sim/shim.cpp"],
